@@ -11,6 +11,9 @@ def extra(ctx, info, rng, fam, hs):
     from lib import c12pub
     frag.update(c12pub.run(ctx, info, rng))
     frag.update(depth_race(ctx, info))
+    # "the oldest queued message" when received_at lies outside the int64 nanosecond range (before 1678, after 2262), both stores
+    from props import c05
+    frag.update(c05.schedule_horizon(ctx, info, rng))
     return frag
 
 
